@@ -117,6 +117,11 @@ Note(k, v) ==
                                                        LB("OItem", 0, n \o "o1", <<L(a, "inline", n \o "ol")>>), LB("OItem", 0, n \o "o2", <<>>),
                                                        LB("Item", 0, n \o "i3", <<>>), LB("Item", 0, n \o "i4", <<>>),
                                                        P("tail", <<>>)>>]
+      \* block references that lead to no heading: inside a quote ("QRef") and as the second paragraph of a list item ("IRef")
+      [] v = 19 -> [title |-> "T" \o n, blocks |-> <<P("p", <<>>),
+                                                       LB("QRef", 0, n \o "qr", <<L(a, "inline", n \o "qa")>>),
+                                                       LB("IRef", 0, n \o "ir", <<L(b, "inline", n \o "ib")>>),
+                                                       LB("H", 2, n \o "h2", <<>>), P("tail", <<>>)>>]
       [] v = 9 -> [title |-> "T" \o n, blocks |-> <<LB("Ref", 0, n \o "m", <<L(Rel(MISSING, d), "inline", n \o "mm")>>),
                                                       P("x", <<X("https://example.com/" \o n, n \o "xx"), X("HTTPS://EXAMPLE.COM/" \o n, n \o "xy")>>),
                                                       P("w", <<L(a, "wiki", ""), L(b, "piped", n \o "pb")>>)>>]
@@ -145,7 +150,7 @@ Update(k, v) ==
     /\ steps' = Append(steps, [key |-> k, note |-> Note(k, v), new |-> k \notin DOMAIN docs])
     /\ UNCHANGED init
 
-GNext == (\E v1, v2, v3 \in 0..18 : Start(v1, v2, v3)) \/ (\E k \in {K1, K2, K3, K4, K5, K6}, v \in 0..18 : Update(k, v))
+GNext == (\E v1, v2, v3 \in 0..19 : Start(v1, v2, v3)) \/ (\E k \in {K1, K2, K3, K4, K5, K6}, v \in 0..19 : Update(k, v))
 GSpec == GInit /\ [][GNext]_vars
 
 Emit == Started => PrintT(<<"HIST", ToJson([init |-> init, steps |-> steps])>>)
